@@ -1199,3 +1199,146 @@ V('05.7t', 'C05', '', 'silent', RUN,
   '            except (exceptions.ArgumentException,):\n                continue',
   'twin: tuple handler, continue')
 VARIANTS = [v for v in VARIANTS if v is not None]
+
+# ------------------------------------------------ rules added after the seeds
+V('08.10', 'C08', 'R08h', 'fire', UTI,
+  '''    for t in args:
+        total += t[0] * sys.getsizeof(t[1], 0)''',
+  '''    for t in args:
+        if isinstance(t[1], (int, float)):
+            continue
+        total += t[0] * sys.getsizeof(t[1], 0)''',
+  'numbers are never charged against the quota')
+V('08.10t', 'C08', '', 'silent', UTI,
+  '''    for t in args:
+        total += t[0] * sys.getsizeof(t[1], 0)
+        if total > quota:''',
+  '''    for count, sample in args:
+        size = sys.getsizeof(sample, 0)
+        total += count * size
+        if total > quota:''',
+  'twin: unpacked sample, size bound to a local')
+V('11.11t', 'C11', '', 'silent', YTY,
+  '''            return self._call(value, new_receiver, new_context,
+                              engine, args, kwargs)''',
+  '''            result = self._call(value, new_receiver, new_context,
+                                engine, args, kwargs)
+            return result''',
+  'twin: result bound to a local')
+V('11.12', 'C11', 'R11a', 'fire', RUN,
+  '''    args = tuple(arg_evaluator(i, arg) for i, arg in enumerate(args))
+    for key, value in kwargs.items():
+        kwargs[key] = arg_evaluator(key, value)''',
+  '''    for key, value in kwargs.items():
+        kwargs[key] = arg_evaluator(key, value)
+    args = tuple(arg_evaluator(i, arg) for i, arg in enumerate(args))''',
+  'keyword arguments evaluated before positional ones')
+V('15.10t', 'C15', '', 'silent', YTY,
+  '''            (int, float), nullable,
+            validators=[lambda t: not isinstance(t, bool)])
+''',
+  '''            (int, float), nullable,
+            validators=[lambda t: not isinstance(t, bool)])
+
+    def check(self, value, context, engine, *args, **kwargs):
+        return super().check(value, context, engine, *args, **kwargs)
+''',
+  'twin: a check() override that only delegates')
+V('15.10', 'C15', 'R15g', 'fire', YTY,
+  '''            (int, float), nullable,
+            validators=[lambda t: not isinstance(t, bool)])
+''',
+  '''            (int, float), nullable,
+            validators=[lambda t: not isinstance(t, bool)])
+
+    def check(self, value, context, engine, *args, **kwargs):
+        return isinstance(value, (int, float)) or super().check(
+            value, context, engine, *args, **kwargs)
+''',
+  'fast path bypasses the not-a-bool validator')
+V('20.8t', 'C20', '', 'silent', DAT,
+  '    return tz.tzoffset(None, seconds(offset))',
+  '    return tz.tzoffset(None, offset.total_seconds())',
+  'twin: total_seconds() instead of the module helper')
+V('20.8', 'C20', 'R20d', 'fire', DAT,
+  '    return tz.tzoffset(None, seconds(offset))',
+  '    return tz.tzoffset(None, offset.seconds)',
+  'timedelta field instead of the total')
+V('17.8t', 'C17', '', 'silent', CTX,
+  '''    def __setitem__(self, name, value):
+        self._context_list[0][name] = value''',
+  '''    def __setitem__(self, name, value):
+        first = self._context_list[0]
+        first[name] = value''',
+  'twin: first member bound to a local')
+V('17.8', 'C17', 'R17e', 'fire', CTX,
+  '''    def __setitem__(self, name, value):
+        self._context_list[0][name] = value''',
+  '''    def __setitem__(self, name, value):
+        self._context_list[-1][name] = value''',
+  'stores into the last member')
+V('06.6t', 'C06,C05', '', 'silent', RUN,
+  '''            elif lazy_params != lazy:
+                raise_ambiguous()''',
+  '''            elif not (lazy_params == lazy):
+                raise_ambiguous()''',
+  'twin: negated equality')
+V('06.6', 'C06,C05', 'R0', 'fire', RUN,
+  '''            elif lazy_params != lazy:
+                raise_ambiguous()''',
+  '''            elif lazy and lazy_params != lazy:
+                raise_ambiguous()''',
+  'agreement only checked for candidates that have lazy parameters')
+V('06.7', 'C06', 'R06f', 'fire', CTX,
+  '''        self._exclusive_funcs = set()''',
+  '''        self._exclusive_funcs = set()
+        self._latest = {}''',
+  'placeholder (edited below)') if False else None
+V2('06.7', 'C06', 'R06f', 'fire', [
+    (CTX, '        self._exclusive_funcs = set()\n',
+     '        self._exclusive_funcs = set()\n        self._latest = {}\n'),
+    (CTX, '        self._functions.setdefault(spec.name, set()).add(spec)\n',
+     '        self._functions.setdefault(spec.name, set()).add(spec)\n'
+     '        self._latest[spec.name] = spec\n')],
+   'a last-writer-wins table keyed by name')
+V('13.5', 'C13', 'R13a', 'fire', COL,
+  '''    copy = dict(d)
+    for t in keys:
+        copy.pop(t, None)
+    return copy''',
+  '''    return {k: v for k, v in d.items() if k not in keys}''',
+  'membership in a one-shot iterator per element of a comprehension')
+V('19.7', 'C19', 'R19b', 'fire', REG,
+  '''    for res in regexp.finditer(string):
+        new_context = context.create_child_context()
+        if selector is None:
+            yield res.group()''',
+  '''    if selector is None:
+        yield from regexp.findall(string)
+        return
+    for res in regexp.finditer(string):
+        new_context = context.create_child_context()
+        if selector is None:
+            yield res.group()''',
+  'findall yields groups for patterns with groups')
+V('12.7', 'C12,C04', 'R12e', 'fire', SYS,
+  '''@specs.inject('__context__', yaqltypes.Context())
+def let(__context__, *args, **kwargs):''',
+  '''@specs.inject('ctx', yaqltypes.Context())
+def let(ctx, *args, **kwargs):
+    __context__ = ctx''',
+  'hidden parameter of a **kwargs function with a writable name')
+V('10.7', 'C10', 'R10e', 'fire', UTI,
+  '''def convert_input_data(obj, rec=None):
+    if rec is None:
+        rec = convert_input_data''',
+  '''_SEEN = {}
+
+
+def convert_input_data(obj, rec=None):
+    if id(obj) in _SEEN:
+        return _SEEN[id(obj)]
+    if rec is None:
+        rec = convert_input_data''',
+  'id()-keyed memo of converted values')
+VARIANTS = [v for v in VARIANTS if v is not None]
